@@ -89,7 +89,9 @@ def judge(trace, tag, stats):
 
 
 def matches(failure, key):
-    return failure["kind"] == key[0] and key[1] in failure["cls"]
+    """key = (kind, class) or (kind, "classA+classB"): a finding about a PAIR of slots excuses only failures that
+    involve both classes"""
+    return failure["kind"] == key[0] and all(c in failure["cls"] for c in key[1].split("+"))
 
 
 # ---------------------------------------------------------------------------------------------------
